@@ -149,7 +149,13 @@ def gen_synthetic(rng):
         lines.append(f"UID:syn-{n}@example.com")
         p, w = dt()
         lines.append(f"DTSTART{p}:{w}")
-        lines.append("DTSTAMP:20200101T000000Z")
+        if rng.random() < 0.15:
+            # UTC properties that name a zone all the same, at the ends of the calendar
+            p2, _ = dt()
+            lines.append(f"DTSTAMP{p2 or ';TZID=' + ids[0]}:" + rng.choice(["00010101T000000", "99991231T235959", "19700101T000000"]))
+            lines.append(f"CREATED;TZID={rng.choice(ids)}:" + rng.choice(["00010101T003000", "99991231T233000"]))
+        else:
+            lines.append("DTSTAMP:20200101T000000Z")
         menu = rng.sample(range(13), rng.randint(2, 7))
         for m in menu:
             if m == 0:
@@ -324,6 +330,7 @@ DICT_DOC = "\r\n".join([
     "BEGIN:STANDARD", "DTSTART:19961027T030000", "TZOFFSETFROM:+0200", "TZOFFSETTO:+0100", "TZNAME:SST",
     "RRULE:FREQ=YEARLY;BYMONTH=10;BYDAY=-1SU", "END:STANDARD", "END:VTIMEZONE",
     "BEGIN:VEVENT", "UID:dict@example.com", "DTSTAMP:20200101T000000Z", "DTSTART;TZID=Sim/Dict:20200310T100000",
+    "CREATED;TZID=Sim/Dict:00010101T000000", "LAST-MODIFIED;TZID=America/New_York:99991231T235959",
     "DTEND;TZID=Sim/Dict:20200310T110000", "RRULE:FREQ=WEEKLY;COUNT=3",
     "RDATE;TZID=Sim/Dict:20200311T100000,20200312T100000",
     "RDATE;VALUE=PERIOD;TZID=Sim/Dict:19700311T100000/19700311T110000,20200329T013000/20200329T033000",
